@@ -219,3 +219,18 @@ func VerifXMLReaccept(n int) {
 	}
 	vReach("end")
 }
+
+var verifXMLUnits = []string{"]", "&gt;", ">", "&lt;", "&amp;", "x", " ", "<![CDATA[", "]]>", "&#93;"}
+
+// VerifXMLUnits: <a>U1..Un</a> with every Ui one of 10 units (brackets, the references to > < &, text, a space, the
+// CDATA delimiters): `]]>` fragments in text and across CDATA sections (the `]]]]><![CDATA[>` idiom), references next
+// to brackets. Longer than the byte-level holes reach.
+func VerifXMLUnits(n int) {
+	parts := [][]byte{[]byte("<a>")}
+	for i := 0; i < n; i++ {
+		parts = append(parts, []byte(verifXMLUnits[vChoice("u"+string(rune('0'+i)), len(verifXMLUnits))]))
+	}
+	parts = append(parts, []byte("</a>"))
+	buf, total := verifBuild(parts...)
+	verifXMLCheck(buf, total)
+}
